@@ -4,8 +4,9 @@
 (* possible between any two (C06).  The output file is described by what   *)
 (* OpenIndex looks at: does it exist, has it the data bucket, the header   *)
 (* (schema + row counter), and how many of the cfg.total bitmaps.          *)
-(*  in-memory writer: CreateExcl; CommitBatch* (cfg.batch bitmaps each, no *)
-(*     header); CommitFinal (remaining bitmaps + header).                  *)
+(*  in-memory writer: CreateExcl; CommitBatch* (some bitmaps each, no      *)
+(*     header; how many per transaction is the implementation's choice);   *)
+(*     CommitFinal (remaining bitmaps + header).                           *)
 (*  big writer: output created up front (CreateExcl); TempCommit steps do  *)
 (*     not touch the output; one CommitFinal writes everything.            *)
 (*  HeaderFirst (code as found): the header goes into the first commit.    *)
@@ -24,11 +25,12 @@ NoFile == [exists |-> FALSE, bucket |-> FALSE, header |-> FALSE, nv |-> 0]
 Init == cfg \in Configs /\ file = NoFile /\ pc = "start" /\ alive = TRUE
 CreateExcl == /\ alive /\ pc = "start"
               /\ file' = [file EXCEPT !.exists = TRUE] /\ pc' = "writing" /\ UNCHANGED <<cfg, alive>>
-CommitBatch == /\ alive /\ pc = "writing" /\ ~cfg.big /\ cfg.total - file.nv >= cfg.batch
-               /\ file' = [file EXCEPT !.bucket = TRUE, !.nv = @ + cfg.batch, !.header = (@ \/ HeaderFirst)]
+CommitBatch == /\ alive /\ pc = "writing" /\ ~cfg.big
+               /\ \E k \in 0..(cfg.total - file.nv) :
+                    file' = [file EXCEPT !.bucket = TRUE, !.nv = @ + k, !.header = (@ \/ HeaderFirst)]
                /\ UNCHANGED <<cfg, pc, alive>>
 TempCommit == alive /\ pc = "writing" /\ cfg.big /\ UNCHANGED cvars
-CommitFinal == /\ alive /\ pc = "writing" /\ (cfg.big \/ cfg.total - file.nv < cfg.batch)
+CommitFinal == /\ alive /\ pc = "writing"
                /\ file' = [file EXCEPT !.bucket = TRUE, !.nv = cfg.total, !.header = TRUE]
                /\ pc' = "done" /\ UNCHANGED <<cfg, alive>>
 Crash == alive /\ alive' = FALSE /\ UNCHANGED <<cfg, file, pc>>
